@@ -291,6 +291,22 @@ func jobsFor(prop, tier string) []job {
 		for _, d := range exitScenarios() {
 			add(d, true, cap, "exit")
 		}
+	case "C05":
+		for _, m := range []string{"interrupt", "off"} {
+			for _, d := range keyScenarios(m, big) {
+				add(d, false, cap)
+			}
+			add(panicScenario(m, big), false, cap)
+		}
+		for _, d := range ccScenarios(big) {
+			add(d, false, cap)
+		}
+		for _, d := range keyEmuScenarios(big, false) {
+			add(d, false, cap)
+		}
+		for _, d := range keyEmuScenarios(big, true) {
+			add(d, false, cap)
+		}
 	case "C07":
 		for _, d := range ccScenarios(big) {
 			add(d, false, cap, "cc")
